@@ -140,8 +140,55 @@ theorem indexed_served {s : Shard} (h : Indexed s) (hj : s.jobs = []) :
 theorem restart_indexed {s : Shard} (h : Indexed s) (hj : s.jobs = []) : Indexed (restart (crash s)) := by
   intro p hp
   have hp' : p ∈ s.segs := by simpa [restart, crash] using hp
-  rcases h p hp' with ⟨j, hjm, _⟩ | hr
+  rcases h p hp' with ⟨j, hjm, _⟩ | ⟨hex, ent, hent, he⟩
   · rw [hj] at hjm; simp at hjm
-  · exact Or.inr (by simpa [restart, crash] using hr)
+  · obtain ⟨hi, hx⟩ := restart_index_of_exists hex
+    exact Or.inr ⟨hx, ent, by rw [hi]; exact hent, he⟩
+
+/-! ## The index file exists from the first start on -/
+
+theorem store_indexExists (s : Shard) (e : Ev) : (store s e).indexExists = s.indexExists := by
+  have h := walAppend_indexExists s e
+  unfold store
+  simp only
+  split <;> simp [rotate, h]
+
+theorem flushStep_indexExists {s : Shard} (h : s.indexExists = true) : (flushStep s).indexExists = true := by
+  unfold flushStep
+  cases s.jobs with
+  | nil => exact h
+  | cons j rest =>
+    simp only
+    split
+    · exact h
+    · split <;> simp [walClean, h]
+
+theorem drain_indexExists (n : Nat) : ∀ {s : Shard}, s.indexExists = true → (drain n s).indexExists = true := by
+  induction n with
+  | zero => intro s h; exact h
+  | succ n ih =>
+    intro s h
+    unfold drain
+    split
+    · exact h
+    · exact ih (flushStep_indexExists h)
+
+theorem step_indexExists {s : Shard} (o : Op) (h : s.indexExists = true) : (step s o).indexExists = true := by
+  cases o with
+  | store e => simpa [step, store_indexExists] using h
+  | flushCmd => exact drain_indexExists _ (by simpa [flushCmd, rotate] using h)
+  | flushStep => exact flushStep_indexExists h
+  | drain => exact drain_indexExists _ h
+  | crash => exact (restart_index_of_exists h).2
+  | shutdown =>
+    have h0 : (drainAll s).indexExists = true := drain_indexExists _ h
+    have h1 : (shutdown s).indexExists = true :=
+      drain_indexExists _ (by simpa [flushCmd, rotate] using h0)
+    exact (restart_index_of_exists h1).2
+
+theorem runOps_indexExists (ops : List Op) : ∀ {s : Shard}, s.indexExists = true → (runOps s ops).indexExists = true := by
+  induction ops with
+  | nil => intro s h; exact h
+  | cons o ops ih => intro s h; simpa [runOps] using ih (step_indexExists o h)
 
 end Snel.Shard
